@@ -185,6 +185,24 @@ theorem finishReply_rt (R : RespTab) (c : Conn) (H : Nat → Nat) (hr : ∀ r, R
 def HRt (R : RespTab) (H : Nat → Nat) (q : RespTab × Conn × Disp × List Ev) : Prop :=
   (∀ r, RT1 r q.1.tab (H r + hold1 r q.2.1)) ∧ (RFree R.fault → RFree q.1.fault)
 
+theorem runReply_rt (R0 R1 : RespTab) (c1 : Conn) (r0 : Nat) (cl : Bool) (H : Nat → Nat)
+    (h1 : ∀ r, RT1 r R1.tab (H r + hold1 r c1)) (hf1 : RFree R0.fault → RFree R1.fault) :
+    HRt R0 H (runReply R1 c1 r0 cl) := by
+  unfold runReply
+  split
+  · have := closeConn_rt R1 _ H h1
+    exact ⟨this.1, fun hh => by rw [this.2.1]; exact hf1 hh⟩
+  · split
+    · have := closeConn_rt R1 _ H h1
+      refine ⟨fun r => ?_, fun hh => by rw [this.2.1]; exact hf1 hh⟩
+      have h2 := this.1 r
+      simpa [hold1, this.2.2] using h2
+    · split
+      · exact ⟨fun r => by simpa [hold1] using h1 r, hf1⟩
+      · have := finishReply_rt R1 { c1 with closeAfter := cl } H
+          (fun r => by simpa [hold1] using h1 r)
+        exact ⟨this.1, fun hh => by rw [this.2]; exact hf1 hh⟩
+
 theorem doReply_rt (cfg : Cfg) (R : RespTab) (c : Conn) (r0 : Nat) (cl : Bool) (H : Nat → Nat)
     (hr : ∀ r, RT1 r R.tab (H r + hold1 r c)) : HRt R H (doReply cfg R c r0 cl) := by
   unfold doReply
@@ -210,19 +228,55 @@ theorem doReply_rt (cfg : Cfg) (R : RespTab) (c : Conn) (r0 : Nat) (cl : Bool) (
           · have hne : some r0 ≠ some r := fun hh => e (Option.some.inj hh)
             simpa [hold1, e, hne] using this
         have hf1 : R1.fault = R.fault := (acquire_rt R R1 r0 hacq r0 (H r0) (hr0 r0)).2
-        split
-        · have := closeConn_rt R1 _ H h1
-          exact ⟨this.1, fun hh => by rw [this.2.1, hf1]; exact hh⟩
-        · split
-          · have := closeConn_rt R1 _ H h1
-            refine ⟨fun r => ?_, fun hh => by rw [this.2.1, hf1]; exact hh⟩
-            have h2 := this.1 r
-            simpa [hold1, this.2.2] using h2
-          · split
-            · exact ⟨fun r => by simpa [hold1] using h1 r, fun hh => by rw [hf1]; exact hh⟩
-            · have := finishReply_rt R1 { c with req := none, resp := some r0, closeAfter := cl } H
-                (fun r => by simpa [hold1] using h1 r)
-              exact ⟨this.1, fun hh => by rw [this.2, hf1]; exact hh⟩
+        exact runReply_rt R R1 _ r0 cl H h1 (fun hh => by rw [hf1]; exact hh)
+
+/-- an interim reply takes a reference and gives it back: the table refines the same holders -/
+theorem interimOne_rt (R : RespTab) (c : Conn) (r0 : Nat) (H : Nat → Nat) (hr : ∀ r, RT1 r R.tab (H r)) :
+    (∀ r, RT1 r (interimOne R c r0).1.tab (H r)) ∧ (interimOne R c r0).1.fault = R.fault := by
+  unfold interimOne
+  split
+  · exact ⟨hr, rfl⟩
+  · split
+    · exact ⟨hr, rfl⟩
+    · rename_i R1 hacq
+      have h1 : ∀ r, RT1 r R1.tab (H r + if r0 = r then 1 else 0) := fun r => (acquire_rt R R1 r0 hacq r (H r) (hr r)).1
+      have hf1 : R1.fault = R.fault := (acquire_rt R R1 r0 hacq r0 (H r0) (hr r0)).2
+      have hp : 1 ≤ H r0 + (if r0 = r0 then 1 else 0) := by simp
+      refine ⟨fun r => ?_, (release_fault R1 r0 _ (h1 r0) hp).trans hf1⟩
+      have := release_rt R1 r0 r _ (h1 r) (fun e => by subst e; exact hp) (release_known R1 r0 _ (h1 r0) hp)
+      by_cases e : r0 = r
+      · subst e; simpa using this
+      · simpa [e] using this
+
+theorem interims_rt (c : Conn) (l : List Nat) : ∀ (R : RespTab) (H : Nat → Nat), (∀ r, RT1 r R.tab (H r)) →
+    (∀ r, RT1 r (interims R c l).1.tab (H r)) ∧ (interims R c l).1.fault = R.fault := by
+  induction l with
+  | nil => intro R H hr; exact ⟨hr, rfl⟩
+  | cons r0 rest ih =>
+    intro R H hr
+    unfold interims
+    have h1 := interimOne_rt R c r0 H hr
+    generalize interimOne R c r0 = q at h1 ⊢
+    obtain ⟨R1, ok, e⟩ := q
+    cases ok with
+    | false => exact h1
+    | true =>
+      have := ih R1 H h1.1
+      exact ⟨this.1, this.2.trans h1.2⟩
+
+theorem replyPre_rt (cfg : Cfg) (R : RespTab) (c : Conn) (r0 : Nat) (cl : Bool) (pre : List Nat) (H : Nat → Nat)
+    (hr : ∀ r, RT1 r R.tab (H r + hold1 r c)) : HRt R H (replyPre cfg R c r0 cl pre) := by
+  unfold replyPre
+  have h1 := interims_rt c pre R (fun r => H r + hold1 r c) hr
+  generalize interims R c pre = q at h1 ⊢
+  obtain ⟨R1, ok, e⟩ := q
+  obtain ⟨a1, a2⟩ := h1
+  simp only at a1 a2
+  cases ok with
+  | false => exact ⟨fun r => by simpa [hold1] using a1 r, fun hh => by rw [a2]; exact hh⟩
+  | true =>
+    have := doReply_rt cfg R1 c r0 (cl || !pre.isEmpty) H a1
+    exact ⟨this.1, fun hh => this.2 (by rw [a2]; exact hh)⟩
 
 theorem handleReq_rt (cfg : Cfg) (R : RespTab) (c : Conn) (H : Nat → Nat)
     (hr : ∀ r, RT1 r R.tab (H r + hold1 r c)) :
@@ -233,7 +287,11 @@ theorem handleReq_rt (cfg : Cfg) (R : RespTab) (c : Conn) (H : Nat → Nat)
   · split
     · exact fun r => by simpa [hold1] using hr r
     · exact fun r => by simpa [hold1] using hr r
-  · exact (doReply_rt cfg R c _ _ H hr).1
+  · exact (replyPre_rt cfg R c _ _ _ H hr).1
+  · exact fun r => by simpa [hold1] using hr r
+  · split
+    · exact (runReply_rt R R _ _ true H (fun r => by simpa [hold1] using hr r) id).1
+    · exact fun r => by simpa [hold1] using hr r
 
 theorem handleReq_rfree (cfg : Cfg) (R : RespTab) (c : Conn) (H : Nat → Nat)
     (hr : ∀ r, RT1 r R.tab (H r + hold1 r c)) (hf : RFree R.fault) : RFree (handleReq cfg R c).1.fault := by
@@ -243,7 +301,11 @@ theorem handleReq_rfree (cfg : Cfg) (R : RespTab) (c : Conn) (H : Nat → Nat)
   · split
     · exact hf
     · simp [RFree]
-  · exact (doReply_rt cfg R c _ _ H hr).2 hf
+  · exact (replyPre_rt cfg R c _ _ _ H hr).2 hf
+  · exact hf
+  · split
+    · exact (runReply_rt R R _ _ true H (fun r => by simpa [hold1] using hr r) id).2 hf
+    · exact hf
 
 theorem afterReq_rt (R : RespTab) (c : Conn) (H : Nat → Nat) (hr : ∀ r, RT1 r R.tab (H r + hold1 r c)) :
     (∀ r, RT1 r (afterReq R c).1.tab (H r + hold1 r (afterReq R c).2.1)) ∧ (afterReq R c).1.fault = R.fault := by
@@ -708,6 +770,43 @@ theorem respDrop_rinv (s : St) (r0 : Nat) (x : Resp) (hx : s.resps r0 = some x) 
   · subst e; simpa using this
   · simpa [e] using this
 
+theorem hold_queueFirst (r' id r : Nat) (l : List Conn) (h : l.any (extQueueable id) = true) :
+    hold r' (queueFirst id r l) = hold r' l + (if r = r' then 1 else 0) := by
+  induction l with
+  | nil => simp at h
+  | cons x l ih =>
+    unfold queueFirst
+    by_cases hx : extQueueable id x = true
+    · rw [if_pos hx]
+      have hn : x.resp = none := by
+        simp [extQueueable] at hx
+        cases hh : x.resp with
+        | none => rfl
+        | some y => simp [hh] at hx
+      by_cases e : r = r'
+      · subst e; simp [hold1, setQueued, hn]
+      · have hne : some r ≠ some r' := fun hh => e (Option.some.inj hh)
+        simp [hold1, setQueued, hn, e, hne]
+    · rw [if_neg hx]
+      have : l.any (extQueueable id) = true := by simpa [hx] using h
+      simp only [hold_cons, ih this]; omega
+
+/-- a response queued from outside on a suspended connection: one more holder, one more reference -/
+theorem extQueue_rinv (s : St) (c r : Nat) (hl : s.susp.any (extQueueable c) = true) (h : RInv s) :
+    RInv (extQueue s c r).1 := by
+  unfold extQueue
+  split
+  · exact h
+  · split
+    · exact h
+    · rename_i R1 hacq
+      refine ⟨fun r' => ?_, h.newNone, h.rf⟩
+      have := (acquire_rt { tab := s.resps, fault := none } R1 r hacq r' _ (h.rt r')).1
+      simp only [holders, hold_nil, Nat.add_zero, hold_queueFirst r' c r s.susp hl] at this ⊢
+      have e1 : hold r' s.newL + hold r' s.active + (hold r' s.susp + if r = r' then 1 else 0) + hold r' s.cleanup
+          = hold r' s.newL + hold r' s.active + hold r' s.susp + hold r' s.cleanup + if r = r' then 1 else 0 := by omega
+      rw [e1]; exact this
+
 theorem step_rinv (s : St) (o : Op) (h : RInv s) : RInv (step s o).1 := by
   unfold step
   split
@@ -745,6 +844,12 @@ theorem step_rinv (s : St) (o : Op) (h : RInv s) : RInv (step s o).1 := by
           simp [hcond.2]
         simp only
         exact respDrop_rinv s r x hx hl h
+    | extQueue c r =>
+      have hl : s.susp.any (extQueueable c) = true := by
+        simp [Op.legal] at hcond
+        simpa using hcond.2.2
+      exact extQueue_rinv s c r hl h
+    | acceptFail => exact h
 
 theorem init_rinv (cfg : Cfg) : RInv (St.init cfg) := by
   refine ⟨?_, by simp [St.init], rfree_none⟩
